@@ -135,6 +135,9 @@ pub enum Msg {
     Custom { tag: u32, fail: bool },
     /// outside the chain model (staking, distribution, ...): only model-free invariants are judged
     Opaque(CosmosMsg<PMsg>),
+    /// a wasm message (kind 0 execute, 1 instantiate, 2 migrate) whose payload is not a script — empty, not JSON, or
+    /// JSON of another shape: the contract cannot read it, so the call fails like any contract error
+    Garbled { kind: u8, addr: String, code_id: u64, bytes: Binary },
 }
 
 /// How a custom message is expressed in the contract's own message type.
@@ -191,6 +194,11 @@ pub fn to_cosmos<C: Flavor>(m: &Msg) -> CosmosMsg<C> {
         Msg::Migrate { addr, code_id, script } => CosmosMsg::Wasm(WasmMsg::Migrate { contract_addr: addr.clone(), new_code_id: *code_id, msg: to_json_binary(script).unwrap() }),
         Msg::UpdateAdmin { addr, admin } => CosmosMsg::Wasm(WasmMsg::UpdateAdmin { contract_addr: addr.clone(), admin: admin.clone() }),
         Msg::ClearAdmin { addr } => CosmosMsg::Wasm(WasmMsg::ClearAdmin { contract_addr: addr.clone() }),
+        Msg::Garbled { kind, addr, code_id, bytes } => CosmosMsg::Wasm(match kind {
+            0 => WasmMsg::Execute { contract_addr: addr.clone(), msg: bytes.clone(), funds: vec![] },
+            1 => WasmMsg::Instantiate { admin: None, code_id: *code_id, msg: bytes.clone(), funds: vec![], label: "garbled".into() },
+            _ => WasmMsg::Migrate { contract_addr: addr.clone(), new_code_id: *code_id, msg: bytes.clone() },
+        }),
         Msg::BankSend { to, coins } => CosmosMsg::Bank(BankMsg::Send { to_address: to.clone(), amount: coins.clone() }),
         Msg::BankBurn { coins } => CosmosMsg::Bank(BankMsg::Burn { amount: coins.clone() }),
         Msg::Custom { tag, fail } => C::custom(*tag, *fail),
